@@ -114,7 +114,16 @@ def run(ctx):
                   "%s does not construct a loader per call" % q,
                   nontrivial=False)
 
+    crosscheck(ctx, "C12.R3", "ZConfig.cfgparser.ZConfigParser.handle_import",
+               "ref_cfgparser.py", "handle_import",
+               "ZConfig.cfgparser.ZConfigParser",
+               "the expanded, stripped name goes to the loader")
+
     # R6
+    crosscheck(ctx, "C12.R6", "ZConfig.SchemaResourceError.__init__",
+               "ref_misc.py", "schemaresourceerror_init",
+               "ZConfig.SchemaResourceError",
+               "carries file name, package and a copy of the search path")
     crosscheck(ctx, "C12.R6", LD + ".SchemaLoader.schemaComponentSource",
                "ref_schema.py", "schemaComponentSource",
                LD + ".SchemaLoader",
